@@ -950,6 +950,19 @@ class SymEval:
             if name in ("max", "min") and len(args) == 2 and order_of(vkey(args[0])) > order_of(vkey(args[1])):
                 args = [args[1], args[0]]
             return app(name, *args)
+        if path in ("core::bool::<impl bool>::then_some", "core::bool::<impl bool>::then") and len(args) == 2:
+            v = args[1]
+            if path.endswith("::then") and isinstance(v, tuple) and v and v[0] in ("closure", "fn"):
+                try:
+                    v = self.apply(v, [])
+                except Unsupported:
+                    v = None
+            if v is not None:
+                c = args[0]
+                if isinstance(c, tuple) and c and c[0] == "bool":
+                    return ("ctor", "Some", [v]) if c[1] else ("variant", "None")
+                # Some(v) exactly when c holds
+                return ("opt", app("bool_to_option", c), v)
         ov = self.option_call(path, args)
         if ov is not None:
             return ov
